@@ -1,4 +1,5 @@
 use crate::common::Ctx;
+pub mod c14;
 pub mod c05;
 pub mod c13;
 pub mod c18;
@@ -25,6 +26,7 @@ pub fn dispatch(ctx: &mut Ctx) -> bool {
         "C18" => c18::run(ctx),
         "C13" => c13::run(ctx),
         "C05" => c05::run(ctx),
+        "C14" => c14::run(ctx),
         _ => return false,
     }
     true
